@@ -126,3 +126,9 @@ Definition run_nearby (good : Z) (regs : list Z) : option (Z * Z) :=
   | Ret (n, None) => Some (n, -1)
   | _ => None
   end.
+
+(* N cases (round 5): MinidumpInfo::new with some streams made unreadable: 0 = Ok, 1 = MissingThreadList, 2 = MissingSystemInfo *)
+Definition run_info_new (thread_list_ok system_info_ok : bool) : Z :=
+  match info_new thread_list_ok system_info_ok with
+  | None => 0 | Some MissingThreadList => 1 | Some MissingSystemInfo => 2
+  end.
